@@ -417,6 +417,53 @@ def extract_graph(repo):
     return edges, missing, unresolved
 
 
+RAW_LITERAL = re.compile(r'\b(?:Self|Uint(?:::<[^>{}]*>)?)\s*\{\s*limbs\b')
+
+
+def strip_test_modules(src):
+    """drop `#[cfg(test)] mod x { .. }` blocks (brace matched)"""
+    out = []
+    i = 0
+    for m in re.finditer(r'#\[cfg\(test\)\]\s*mod\s+\w+\s*\{', src):
+        if m.start() < i:
+            continue
+        out.append(src[i:m.start()])
+        depth = 0
+        j = m.end() - 1
+        while j < len(src):
+            if src[j] == '{':
+                depth += 1
+            elif src[j] == '}':
+                depth -= 1
+                if depth == 0:
+                    break
+            j += 1
+        i = j + 1
+    out.append(src[i:])
+    return ''.join(out)
+
+
+def raw_literal_sites(repo):
+    """every place in src/ that builds a `Uint` from a bare struct literal (`Self { limbs }`): the only primitive way to
+    make a value besides unsafe code. -> list of (file, enclosing fn name)"""
+    sites = []
+    root = os.path.join(repo, 'src')
+    for dp, dn, fn in os.walk(root):
+        for x in sorted(fn):
+            if not x.endswith('.rs'):
+                continue
+            path = os.path.join(dp, x)
+            src = strip_test_modules(re.sub(r'//[^\n]*', '', open(path).read()))
+            for m in RAW_LITERAL.finditer(src):
+                owner = None
+                for f in re.finditer(r'\bfn\s+([A-Za-z_][A-Za-z0-9_]*)', src[:m.start()]):
+                    body = body_at(src, f.start())
+                    if f.start() + len(body) > m.start():
+                        owner = f.group(1)
+                sites.append((os.path.relpath(path, repo), owner or '?'))
+    return sites
+
+
 def reach_py(edges, start):
     seen = [start]
     k = 0
@@ -489,6 +536,15 @@ def translate(repo, lean):
     nodes = sorted(set(edges) | {'LIMBS_ASSERT'} | {r for v in edges.values() for r in v})
     idx = {n: i for i, n in enumerate(nodes)}
     public = [n for n in sorted(edges) if n not in HELPERS and n not in unavailable]
+    # raw construction sites: each must sit in a node that reaches the assertion
+    sites = raw_literal_sites(repo)
+    file_of = {n: PRODUCERS[n][0] for n in PRODUCERS}
+    raw_known, raw_unknown = [], []
+    for f, owner in sites:
+        if owner in edges and file_of.get(owner) == f:
+            raw_known.append(owner)
+        else:
+            raw_unknown.append('%s: fn %s' % (f, owner))
     lines = ['/-! GENERATED by tools/props/c04.py (translate) from src/lib.rs, src/from.rs, src/bytes.rs, src/support/*.rs — do not edit.',
              '    Nodes are the constants/constructors that yield a `Uint` without taking one; an edge `a → b` means the body of `a`',
              '    mentions `b`. `LIMBS_ASSERT` is the associated const `Self::LIMBS`, whose evaluation asserts `LIMBS == nlimbs(BITS)`. -/',
@@ -501,7 +557,9 @@ def translate(repo, lean):
     for n in nodes:
         lines.append('  [%s],  -- %d %s' % (', '.join(str(idx[r]) for r in edges.get(n, [])), idx[n], n))
     lines[-1] = lines[-1].replace('],  --', ']   --', 1)
-    lines += [']', '', '/-- the public producers (every one must reach `limbsAssert`) -/',
+    raw_line = 'def rawLiteralOwners : List Nat := [%s]' % ', '.join(str(idx[n]) for n in raw_known if n in idx)
+    lines += [']', '', '/-- nodes whose body builds a value from the bare struct literal `Self { limbs }` (every one must reach `limbsAssert`) -/',
+              raw_line, '', '/-- the public producers (every one must reach `limbsAssert`) -/',
               'def publicProducers : List Nat := [%s]' % ', '.join(str(idx[n]) for n in public), '',
               'end Ruint.Gen.GuardGraph', '']
     new = '\n'.join(lines)
@@ -509,7 +567,9 @@ def translate(repo, lean):
     changed = old != new
     if changed:
         open(path, 'w').write(new)
-    return {'changed': changed and old is not None, 'obligations': ['Ruint.C04.guard_graph_reaches'],
+    return {'changed': changed and old is not None, 'obligations': ['Ruint.C04.guard_graph_reaches', 'Ruint.C04.raw_literals_guarded'],
+            'raw_struct_literal_sites': ['%s: fn %s' % x for x in sites],
+            'raw_struct_literal_sites_outside_known_nodes (tie unavailable; full probe set is run)': raw_unknown,
             'guard_graph': {n: edges[n] for n in sorted(edges)},
             'anchors_missing (tie unavailable for these)': missing,
             'unresolved_references (tie unavailable for these, left to the compile probes)': unavailable}
@@ -544,6 +604,13 @@ def extra_checks(tier, rng, findings):
         flagged += [n for n in missing if n not in HELPERS]
     except Exception as e:   # the extractor must never turn into an alarm
         flagged = []
+    try:
+        known_files = {n: PRODUCERS[n][0] for n in PRODUCERS}
+        if any(not (o in PRODUCERS and known_files[o] == f) for f, o in raw_literal_sites(repo)):
+            # a new place builds `Self { limbs }` directly: which producers it feeds is unknown -> probe everything
+            sel = probes.select('thorough', rng)
+    except Exception:
+        pass
     items = dict(probes.ITEMS)
     have = set((n, b, l) for n, e, b, l in sel)
     for n in flagged:
